@@ -572,6 +572,17 @@ def const_branch(cx, inst, items, E, node):
                 and isinstance(c0.comparators[0], ast.Constant) and isinstance(c0.comparators[0].value, (int, float)) and c0.comparators[0].value > 0 and D(strip(two[1])) == IN:
             return cx.rep.fail(rule, inst, "tolerance test `%s`: every constant within the tolerance of its truncation is replaced by the integer, so a regularisation constant such as 1e-12 becomes 0 "
                                "(sqrt(x*x + 1e-12) turns into sqrt(x**2)): the value is not preserved" % U(c0), where=cx.at(node))
+        if isinstance(c0, ast.Call) and U(c0.func) in ("math.isclose", "isclose", "np.isclose", "numpy.isclose") and len(c0.args) == 2 \
+                and {D(c0.args[0]), D(c0.args[1])} == {FL, IN}:
+            kw = {k.arg: k.value for k in c0.keywords}
+            zero = lambda v: isinstance(v, ast.Constant) and isinstance(v.value, (int, float)) and v.value == 0
+            exact = "rel_tol" in kw and zero(kw["rel_tol"]) and ("abs_tol" not in kw or zero(kw["abs_tol"])) if "math" in U(c0.func) or U(c0.func) == "isclose" \
+                else "rtol" in kw and zero(kw["rtol"]) and "atol" in kw and zero(kw["atol"])
+            if not exact and D(strip(two[1])) == IN:
+                return cx.rep.fail(rule, inst, "tolerance test `%s` (relative tolerance 1e-9 unless both tolerances are given as 0): a non-integer constant within the tolerance of its truncation is replaced by the "
+                                   "integer - 4000000000.5 becomes 4000000000: the value is not preserved" % U(c0), where=cx.at(node))
+            if exact and D(strip(two[1])) in (IN, FL) and D(strip(two[2])) == FL:
+                return cx.rep.ok(rule, inst, fact={"int_only_if": U(c0)})
         t, a, b = D(two[0]), D(strip(two[1])), D(strip(two[2]))
         if t in [P(x.format(e=E)) for x in ne]:
             t, a, b = "eq", b, a
@@ -887,20 +898,39 @@ def cse_order(cx_w, rep):
             apply_ = (rev, base, lp)
         elif "prs(" in body_src and ("[" in body_src):
             build = (rev, base, lp)
-    if build is None or apply_ is None:
-        rep.incomplete(R, "_sympy_parser cse path: substitution order", "cannot find the loop that builds the substitution map and the loop that applies ca.substitute", where=(REL, branch.lineno))
-        return
-    base_ok = isinstance(build[1], _ast.Name) and build[1].id == "cse_defs"
-    app_base = apply_[1]
-    over_map = isinstance(app_base, _ast.Call) and isinstance(app_base.func, _ast.Attribute) and app_base.func.attr == "items"
-    if not base_ok or not over_map:
-        rep.incomplete(R, "_sympy_parser cse path: substitution order", "unrecognised iteration (%s / %s)" % (_ast.unparse(build[2].iter), _ast.unparse(apply_[2].iter)), where=(REL, build[2].lineno))
-        return
-    net_reversed = build[0] != apply_[0]
-    rep.check(R, "_sympy_parser cse path: definitions are substituted last-first", net_reversed,
-              "sympy.cse temporaries are substituted first-definition-first: a temporary that is used by a later temporary is re-introduced after it was eliminated and stays in the result as a free symbol",
-              where=(REL, build[2].lineno), fact={"build": _ast.unparse(build[2].iter), "apply": _ast.unparse(apply_[2].iter)})
-
+    if build is not None and apply_ is None:
+        # one ca.substitute call with LISTS of keys and values replaces them simultaneously: correct only when every stored
+        # definition has already been resolved against the earlier ones
+        single = [n for st in branch.body if not isinstance(st, _ast.For) for n in _ast.walk(st)
+                  if isinstance(n, _ast.Call) and isinstance(n.func, _ast.Attribute) and n.func.attr == "substitute" and len(n.args) == 3]
+        stores = [n for n in _ast.walk(build[2]) if isinstance(n, _ast.Assign) and isinstance(n.targets[0], _ast.Subscript)]
+        if len(single) == 1 and len(stores) == 1 and isinstance(stores[0].targets[0].value, _ast.Name):
+            mp = stores[0].targets[0].value.id
+            k_src, v_src = _ast.unparse(single[0].args[1]), _ast.unparse(single[0].args[2])
+            whole_map = (mp + ".keys()" in k_src or "list(%s)" % mp == k_src) and mp + ".values()" in v_src
+            raw = isinstance(stores[0].value, _ast.Call) and isinstance(stores[0].value.func, _ast.Name) and stores[0].value.func.id == "prs" and "substitute" not in _ast.unparse(build[2])
+            if whole_map and raw:
+                rep.fail(R, "_sympy_parser cse path: definitions are substituted last-first",
+                         "`%s` substitutes all sympy.cse temporaries simultaneously with their unresolved definitions: a definition that uses an earlier temporary (x1 = f(x0)) brings x0 back "
+                         "and it stays in the result as a free symbol" % _ast.unparse(single[0])[:120], where=(REL, single[0].lineno))
+                build = None        # decided; skip the order rule below
+                apply_ = "decided"
+    def order_rule():
+        if build is None or apply_ is None:
+            rep.incomplete(R, "_sympy_parser cse path: substitution order", "cannot find the loop that builds the substitution map and the loop that applies ca.substitute", where=(REL, branch.lineno))
+            return
+        base_ok = isinstance(build[1], _ast.Name) and build[1].id == "cse_defs"
+        app_base = apply_[1]
+        over_map = isinstance(app_base, _ast.Call) and isinstance(app_base.func, _ast.Attribute) and app_base.func.attr == "items"
+        if not base_ok or not over_map:
+            rep.incomplete(R, "_sympy_parser cse path: substitution order", "unrecognised iteration (%s / %s)" % (_ast.unparse(build[2].iter), _ast.unparse(apply_[2].iter)), where=(REL, build[2].lineno))
+            return
+        net_reversed = build[0] != apply_[0]
+        rep.check(R, "_sympy_parser cse path: definitions are substituted last-first", net_reversed,
+                  "sympy.cse temporaries are substituted first-definition-first: a temporary that is used by a later temporary is re-introduced after it was eliminated and stays in the result as a free symbol",
+                  where=(REL, build[2].lineno), fact={"build": _ast.unparse(build[2].iter), "apply": _ast.unparse(apply_[2].iter)})
+    if apply_ != "decided":
+        order_rule()
 
     # ---- clean-up of the caller's table: only names introduced by the cse pass may be removed
     snap_names = set()
